@@ -35,6 +35,8 @@ func init() {
 				NeedCounters: []string{"reply-routed", "reply-to-gone-pipe", "send-protostate", "malformed-dropped", "ctx-own-request", "context-opened-mid-history"}})
 			out = append(out, &vexplore.Scenario{Name: k.n + "-sched-two-ctx", Mode: "sched", Bound: b, Reset: kit.ResetGlobals,
 				Body: func() { schedTwoCtx(k.c) }})
+			out = append(out, &vexplore.Scenario{Name: k.n + "-shared-reply-two-contexts", Mode: "sched", Bound: b, Reset: kit.ResetGlobals,
+				Body: func() { schedSharedReply(k.n, k.c) }})
 		}
 		for _, k := range []struct {
 			n string
@@ -427,6 +429,84 @@ func schedTwoCtx(c ctor) {
 		}
 	}
 	kit.Observe("%s|%s", out[0].req, out[1].req)
+}
+
+// schedSharedReply: two contexts hold requests from two connections (with different routing
+// headers); the application answers both with one message that it shares (Clone).  Connection 0
+// may be slow to take what it is given.  Each requester gets the reply with its own routing header.
+func schedSharedReply(kind string, c ctor) {
+	w := setup(c, 2)
+	hold := kit.ChooseFree(2) == 1
+	r0, d0 := w.mkRequest(0, 1)
+	r1, d1 := w.mkRequest(1, 2)
+	rs := []*request{r0, r1}
+	w.pipes[0].Deliver(d0)
+	kit.Quiesce()
+	got := make([]string, 2)
+	for i, m := range w.ctxs {
+		m := m
+		if i == 1 {
+			w.pipes[1].Deliver(d1)
+			kit.Quiesce()
+		}
+		cl := kit.Start("Recv:"+m.name, func() (interface{}, error) { b, err := m.recvCall(); return string(b), err })
+		kit.Quiesce()
+		if !cl.Done() || cl.Err != nil {
+			kit.Failf("setup", "%s: Recv done=%v %s", m.name, cl.Done(), kit.ErrName(cl.Err))
+		}
+		got[i] = cl.Val.(string)
+	}
+	if got[0] != r0.body || got[1] != r1.body {
+		kit.Failf("setup", "requests received: %q", got)
+	}
+	if hold {
+		w.pipes[0].Hold(true)
+	}
+	msg := mangos.NewMessage(16)
+	msg.Body = append(msg.Body, "shared-reply"...)
+	msg.Clone() // a second reference to the same message
+	var calls []*kit.Call
+	for _, m := range w.ctxs {
+		m := m
+		calls = append(calls, kit.Start("SendMsg:"+m.name, func() (interface{}, error) {
+			if m.c != nil {
+				return nil, m.c.SendMsg(msg)
+			}
+			return nil, m.s.SendMsg(msg)
+		}))
+	}
+	kit.Quiesce()
+	if hold {
+		w.pipes[0].Hold(false)
+		w.pipes[0].Take(10)
+		kit.Quiesce()
+	}
+	for i, cl := range calls {
+		if !cl.Done() || cl.Err != nil {
+			kit.Failf("shared-send", "context %d: SendMsg of a shared message: done=%v %s", i, cl.Done(), kit.ErrName(cl.Err))
+		}
+	}
+	wire := w.newWire()
+	if len(wire) != 2 {
+		kit.Failf("shared-wire-count", "two replies produced %d transport messages", len(wire))
+	}
+	for _, r := range rs {
+		want := append(append([]byte{}, r.backtrace...), "shared-reply"...)
+		n := 0
+		for _, sm := range wire {
+			if sm.pipe == r.pipe {
+				n++
+				if !bytes.Equal(sm.Data, want) {
+					kit.Failf("shared-reply-header:"+kind, "the reply written to p%d is %x, want the routing header %x of its request followed by the body (one message, cloned, sent as the reply on two contexts)", r.pipe, sm.Data, r.backtrace)
+				}
+			}
+		}
+		if n != 1 {
+			kit.Failf("shared-reply-misrouted:"+kind, "the requester on p%d received %d replies", r.pipe, n)
+		}
+	}
+	kit.Observe("hold=%v", hold)
+	kit.Must("Socket.Close", func() { _ = w.sock.Close() })
 }
 
 // ---------------------------------------------------------------------------
